@@ -4,6 +4,7 @@ import HmcVerif.Real.Lit
 import HmcVerif.Real.Reflect
 import HmcVerif.Real.Fold
 import HmcVerif.Real.Volume
+import HmcVerif.Real.FoldVolume
 import Mathlib.Algebra.Module.Basic
 import Mathlib.Tactic.Ring
 import Mathlib.Tactic.NormNum
@@ -315,6 +316,32 @@ theorem full_mass_box_not_reversible :
   have h1 := congrFun (congrArg PS.q h) 1
   simp [stepOp, flip, boxRefl, witnessS, witnessLb, witnessUb, fullVel, correctorR, corrector1, reflect1, reflLow, reflHigh] at h1
 
+/-! ### volume preservation **with** reflections (one coordinate; a diagonal metric acts coordinate by coordinate)
+
+   `cdriftMap l u c (q, p) = corrector (q + c p, p)` is the drift sub-step of every integrator on a coordinate with
+   the box `[l, u]` (`c` = time × inverse mass).  However long the drift and however many walls it crosses, the map
+   is injective on the open strip `l < q < u`, lands in the closed strip, and carries Lebesgue measure to Lebesgue
+   measure.  Partial with respect to the property: one coordinate (the product over coordinates and the
+   composition with the kicks are not stated), and starts exactly on a wall (a null set) are left out. -/
+
+open MeasureTheory in
+theorem boxed_drift_volume_preserving_1d_partial (l u c : ℝ) (hlu : l < u) (A : Set (ℝ × ℝ)) (hA : MeasurableSet A) :
+    volume (cdriftMap l u c ⁻¹' A ∩ openStrip l u) = volume (A ∩ cdriftMap l u c '' openStrip l u) :=
+  cdrift_volume l u c hlu A hA
+
+open MeasureTheory in
+theorem boxed_drift_pushforward_1d_partial (l u c : ℝ) (hlu : l < u) :
+    Measure.map (cdriftMap l u c) (volume.restrict (openStrip l u))
+      = volume.restrict (cdriftMap l u c '' openStrip l u) :=
+  cdrift_map_restrict l u c hlu
+
+theorem boxed_drift_injective_1d (l u c : ℝ) (hlu : l < u) : Set.InjOn (cdriftMap l u c) (openStrip l u) :=
+  cdriftMap_injOn l u c hlu
+
+theorem boxed_drift_lands_in_box_1d (l u c : ℝ) (hlu : l < u) :
+    cdriftMap l u c '' openStrip l u ⊆ {z | l ≤ z.1 ∧ z.1 ≤ u} :=
+  cdrift_image_in_box l u c hlu
+
 /-! ### non-vacuity: the hypotheses above are met by concrete non-trivial states -/
 
 /-- a regular one-coordinate state in a well-formed box: [0,1], start 1/2 - and a drift of 3·(9/4) that
@@ -325,6 +352,8 @@ example : strictlyInBox1 (some 0) (some 1) (1/2 : ℝ) ∧ ((0:ℝ) < 1) := by
   · intro u hu; cases hu; norm_num
 example : cdrift1 (some 0) (some 1) 3 (cdrift1 (some 0) (some 1) 3 (1/2) (9/4)).1 (-(cdrift1 (some 0) (some 1) 3 (1/2) (9/4)).2) = (1/2, -(9/4)) :=
   cdrift1_reversible_box 0 1 3 (1/2) (9/4) (by norm_num) (by norm_num) (by norm_num)
+/-- the start of that six-wall drift lies in the open strip of the volume theorem -/
+example : ((1/2, 9/4) : ℝ × ℝ) ∈ openStrip 0 1 := by constructor <;> norm_num
 example : ∀ p : ℝ, (fun x => (2:ℝ) * x) (-p) = -((fun x => (2:ℝ) * x) p) := by intro p; ring
 
 end C01
